@@ -6,7 +6,7 @@
 (* input argument).                                                          *)
 EXTENDS XargsBatch, TraceLib
 
-InDomain(in) == TRUE
+InDomain(in, obs) == TRUE
 
 Conforms(in, obs) ==
   /\ "panic" \notin DOMAIN obs
